@@ -586,3 +586,26 @@ def run(ctx, R):
         'placement.objects.allocation:_check_capacity_exceeded',
         'placement.objects.allocation:_delete_allocations_for_consumer'])
     R.count('R1.6', n, 2)
+
+
+def r17(ctx, R):
+    """The capacity check reads total, reserved, min_unit, max_unit,
+    step_size and allocation_ratio from the inventories table: what the
+    inventory writers (also the reshaper's interim and final replacement)
+    store there must be the values of the inventory they were given, on the
+    INSERT as on the UPDATE - a writer that stores something else lets a
+    later allocation through against numbers nobody asked for (R11.1 read
+    for the inventories table)."""
+    from psa.rules import c11
+    n = C.reuse_obligations(
+        ctx, R, c11.r111, 'R1.7',
+        select=lambda o: ':inventories.' in o.construct)
+    R.count('R1.7', n, 12)
+
+
+_run_c01 = run
+
+
+def run(ctx, R):
+    _run_c01(ctx, R)
+    r17(ctx, R)
